@@ -43,7 +43,7 @@ package jsonrpc2
 //@ property C15 C16
 //@ requires m != nil && methodWF(m)
 //@ ensures [runs-at-most-once] invoked == old(invoked) || invoked == old(invoked) + 1
-//@ modifies invoked
+//@ modifies invoked, msgstart, msglen, alloc
 
 // registryWF: every registered method is well-formed (Register only stores what MethodsOf built)
 //@ pure registryWF(reg map[string]Method) bool = forall name string :: has(reg, name) ==> numin(reg[name].Method.Func) == 1 + ite(reg[name].HasCtx, 1, 0) + len(reg[name].ArgTypes)
@@ -88,7 +88,7 @@ package jsonrpc2
 //@ ensures [arity] err == nil ==> len(result) == len(types) || len(result) == 0
 //@ ensures [too-many-is-an-error] err == nil && len(rawArgs) != 0 && string(rawArgs) != "null" ==> jsonelems(string(rawArgs)) <= len(types)
 //@ ensures [error-kind] err != nil ==> result == nil
-//@ modifies nothing
+//@ modifies msgstart, msglen, alloc
 //@ loop 0 invariant [count] len(args) == i && i >= 0 && i <= len(types) && dec.dcount == i && dec.dsrc.rcontent == string(rawArgs)
 //@ loop 1 invariant [count] len(args) == i && i <= len(types)
 
@@ -125,6 +125,7 @@ package jsonrpc2
 //@ ensures [only-unclaimed] forall p int :: off(result) <= p && p < off(result) + len(result) ==> has(pending, elems(result)[p].key) && !pending[elems(result)[p].key].waiting
 //@ modifies nothing
 //@ loop 0 invariant [only-unclaimed] forall p int :: off(queue) <= p && p < off(queue) + len(queue) ==> has(pending, elems(queue)[p].key) && !pending[elems(queue)[p].key].waiting
+//@ loop 0 invariant [own-array] !old(allocated(ref(queue)))
 
 //@ func (*Remote).cleanPending
 //@ property C14 C10
@@ -154,7 +155,7 @@ package jsonrpc2
 //@ ensures [waiters-untouched] forall k string :: k != key && old(has(r.pending, k)) && old(r.pending[k].waiting) ==> has(r.pending, k) && r.pending[k] == old(r.pending[k])
 //@ ensures [nothing-invented]  forall k string :: k != key && has(r.pending, k) ==> old(has(r.pending, k)) && r.pending[k] == old(r.pending[k])
 //@ ensures [unlocked] !held(r.mu)
-//@ modifies r.pending, fieldof(r.pending), alloc
+//@ modifies r.pending, fieldof(r.pending), alloc, clock
 
 //@ func (*Remote).getPendingChan
 //@ property C14
